@@ -662,7 +662,7 @@ func TestC12(t *testing.T) {
 					ti = -1
 				case 2: // same offset as a PC on the path, but another bank: the budget is solved to end the run exactly there
 					otherBank = 1 + d.Intn("other-step", len(path)-1)
-					c.Target = path[otherBank] ^ uint32(1+d.Intn("bank-bit", 3))<<16
+					c.Target = path[otherBank] ^ uint32([]uint32{1, 2, 3, 0x80, 0x40, 0xFF}[d.Intn("bank-bit", 6)])<<16 // (also the FastROM mirror bit)
 					ti = -1
 				default:
 					ti = 1 + d.Intn("target-step", len(path)-1)
